@@ -160,6 +160,64 @@ def sql_oracle(c, out):
     return None
 
 
+def gen_join_case(rng, tier):
+    """ORDER BY over a join of two tables that may both be keyed (on disk the optimiser then picks a merge join and may drop the sort)"""
+    keyed = rng.random() < 0.7
+    engine = rng.choice(["disk", "disk", "mem"])
+    pkd = " primary key" if keyed else ""
+    steps = [{"sql": f"create table p(k int{pkd}, v int)"}, {"sql": f"create table q(k int{pkd}, w int)"}]
+    tabs = {}
+    for nm in ("p", "q"):
+        ks = rng.sample(range(1, 12), rng.randint(0, 7))
+        if not keyed and ks and rng.random() < 0.5:
+            ks += [rng.choice(ks), None]
+        rows = [[k, rng.randint(0, 3)] for k in ks]
+        tabs[nm] = rows
+        for part in (rows[: len(rows) // 2], rows[len(rows) // 2:]):
+            if part:
+                steps.append({"sql": f"insert into {nm} values " + ", ".join(f"({'null' if k is None else k}, {v})" for k, v in part)})
+    jt = rng.choice(["join", "left join", "left join", "right join", "full join"])
+    col = rng.choice([0, 1, 1, 2, 3])
+    desc = rng.random() < 0.3
+    order = ["p.k", "q.k", "p.v", "q.w"][col] + (" desc" if desc else "")
+    limit = rng.choice([None, None, 1, 2, 3])
+    q_full = f"select p.k, q.k, p.v, q.w from p {jt} q on p.k = q.k order by {order}"
+    q_lim = q_full + ("" if limit is None else f" limit {limit}")
+    steps += [{"explain": q_full}, {"sql": q_full}, {"sql": q_lim}]
+    # the join itself, independently
+    P, Q = tabs["p"], tabs["q"]
+    want = []
+    for a in P:
+        m = [b for b in Q if a[0] is not None and b[0] == a[0]]
+        want += [[a[0], b[0], a[1], b[1]] for b in m]
+        if not m and jt in ("left join", "full join"):
+            want.append([a[0], None, a[1], None])
+    if jt in ("right join", "full join"):
+        for b in Q:
+            if not any(a[0] is not None and a[0] == b[0] for a in P):
+                want.append([None, b[0], None, b[1]])
+    return {"engine": engine, "steps": steps, "want": want, "ks": [(col, desc)], "limit": limit, "q": q_lim, "q_full": q_full, "keyed": keyed, "jt": jt}
+
+
+def join_oracle(c, out):
+    def vals(o):
+        return [[None if v is None else v[1] for v in r] for r in o["ok"][0]["rows"]] if "ok" in o else None
+    plan, full, lim = out[-3], vals(out[-2]), vals(out[-1])
+    if full is None or lim is None:
+        bad = json.dumps([o for o in out[-2:] if "ok" not in o][0])
+        klass = "KF_C11_nl_right_full_todo" if c["jt"] in ("right join", "full join") and "abort" in bad else None
+        return (klass, f"`{c['q_full']}` failed: {bad[:150]}")
+    key = sort_key(c["ks"])
+    if sorted(map(json.dumps, full)) != sorted(map(json.dumps, c["want"])):
+        return (None, f"`{c['q_full']}` ({c['engine']}) is not a permutation of the join's rows: {len(full)} rows, {len(c['want'])} expected")
+    keys = [key(r) for r in full]
+    if keys != sorted(keys):
+        return (None, f"`{c['q_full']}` ({c['engine']}, {'keyed' if c['keyed'] else 'unkeyed'} tables) is not sorted on its key: {[r[c['ks'][0][0]] for r in full]}; plan {json.dumps(plan)[:160]}")
+    if c["limit"] is not None and [key(r) for r in lim] != keys[:c["limit"]]:
+        return (None, f"`{c['q']}` does not return the first {c['limit']} rows of the ordered result")
+    return None
+
+
 def run(R, only=None):
     R.prove(extra=["Corr/Exec.vo"])
     build_harness()
@@ -195,8 +253,20 @@ def run(R, only=None):
         layouts[lay] = layouts.get(lay, 0) + 1
         if c["n_ins"] > 1:
             nontriv.add(json.dumps(c["steps"]))
+    # ORDER BY over joins (merge joins of keyed tables on disk)
+    jc = [gen_join_case(R.rng, R.tier) for _ in range(120 if R.tier == "quick" else 2000)]
+    jo = run_harness("sql", [{"engine": c["engine"], "steps": c["steps"]} for c in jc], jobs=16)
+    for c, o in zip(jc, jo):
+        if not isinstance(o, list) or len(o) < len(c["steps"]):
+            R.property_fails(None, f"C12 script aborted: {json.dumps(o)[-200:]}", {"kind": "sql-script", "case": c["steps"]})
+            continue
+        r = join_oracle(c, o)
+        if r:
+            R.property_fails(r[0], "C12 " + r[1], {"kind": "sql-script", "engine": c["engine"], "case": c["steps"], "observed": o[-3:]})
+        lay = f"join/{c['engine']}/{'keyed' if c['keyed'] else 'unkeyed'}/{c['jt']}"
+        layouts[lay] = layouts.get(lay, 0) + 1
     R.coverage.update({
-        "evaluations": len(pcs) + len(sc), "distinct_nontrivial": len(nontriv),
+        "evaluations": len(pcs) + len(sc) + len(jc), "distinct_nontrivial": len(nontriv),
         "rule": "order / top-N / limit plans over multi-chunk inputs (incl. 1023..1100-row chunks) for every LIMIT/OFFSET combination; SQL "
                 "queries on both engines over tables built by 1-4 inserts, optional delete, optional compaction, ordered by PK or non-PK "
                 "keys asc/desc; non-trivial = more than one chunk / row-set",
